@@ -40,7 +40,8 @@ REQUIRED_MONITORS = ["loadable", "content", "logged", "source", "file"]
 
 REPO_TEXTS = ["local/terms.xml", "terms", "../shared/t.xml", "/abs/path/terms.xml", "C:\\terms.xml"]
 WORDS = ["alpha", "beta", "x", "rec", "stim", "n1", "v 2", "ä", u"cafe\u0301", u"\u2126", u"\u212bm"]
-DTYPES = ["string", "int", "float", "text", "boolean", None, None]
+DTYPES = ["string", "int", "float", "text", "boolean", None, None, "string", "int", "float", "text", "boolean", None, None,
+          "URL", "Text"]        # (a 1.0 file may spell a type name with capitals; the name is kept as written)
 
 
 def gen_doc(rng, hostile_values=0.15, comments=False):
@@ -152,7 +153,7 @@ def gen_doc(rng, hostile_values=0.15, comments=False):
             for n in names(rng.choice([0, 1, 2]), ["s", "sub"]):
                 s["sections"].append(sec(n, depth - 1))
         return s
-    d = {"author": "Author A" if rng.random() < 0.5 else None, "version": "v1" if rng.random() < 0.4 else None,
+    d = {"id": ident() if rng.random() < 0.5 else None, "author": "Author A" if rng.random() < 0.5 else None, "version": "v1" if rng.random() < 0.4 else None,
          "date": "2019-05-06" if rng.random() < 0.4 else None, "unsupported": [], "sections": []}
     if rng.random() < 0.15:
         d["unsupported"].append((rng.choice(v1map.UNSUPPORTED_DOC), "gone"))
